@@ -46,6 +46,14 @@ CHECKS = {
          "Held on every explored tree and start node: every traversal entry point and all 12 axes are compared, for every node incl. attribute and namespace nodes, with lists computed from handles recorded at creation; exhaustive over all 65 ordered shapes with <= 6 nodes x kinds x decorations, plus random trees, deep chains, wide fans and re-parsed trees; exploration, not proof.",
          "Iterators are consumed with a bound (2n+8); for attribute/namespace start nodes only the entry points whose meaning the statement fixes are judged.",
          "ground-truth comparison of every iterator (bounded consumption)"),
+ "C08": ("DESIGN.md §5 C08",
+         "Held on every explored history: an interner model records every registration (direct, through parse, html5) and after every step every id <-> string pair, the read-only lookups and the built-in ids are re-checked in the store and in a clone; four long histories cross the former 16-bit width three times over (2*10^5 names, also through parse; 7*10^4 namespaces and prefixes) with all earlier ids re-resolved at 65 535 / 65 536 / 65 537 / 131 072 and at the end; exploration, not proof.",
+         "Not exercised beyond 2*10^5 registrations per kind.",
+         "reference-model monitor (interner) with long histories"),
+ "C20": ("DESIGN.md §5 C20",
+         "Held on every explored document: parse of a rendering, fixed::Document / fixed::Element + xotify, and stepwise creation in four orders x three attribute styles must read back equal to the abstract document (incl. declarations, attribute order, leading / trailing top-level comments and PIs) and serialise to identical strings; exploration, not proof.",
+         "XML-representable well-formed documents without the open F29 trigger.",
+         "differential oracle across three construction routes"),
  "C09": ("DESIGN.md §5 C09",
          "Held on every explored node: at every node (elements, attribute nodes, namespace nodes, leaves) of trees with arbitrary declaration layouts the in-scope set, namespace_for_prefix / is_prefix_defined for 8 prefixes, prefix_for_namespace for 7 namespaces, unresolved_namespaces, inherited_prefixes and the qualified names from node_name_ref / name_ref / full_name are compared with a nearest-declaration-wins walk over the abstract tree; exploration, not proof.",
          "unresolved_namespaces / inherited_prefixes only as pinned down in DESIGN §5 C09; one open finding (no-namespace element under a default binding) suppressed by exact signature.",
